@@ -21,13 +21,67 @@ func init() {
 		"The concrete message/line for a concrete program is a runtime value and is not decided.", runC12)
 }
 
+// isAddSyntaxError: a call that records a diagnostic - AddSyntaxError itself or a wrapper that always calls it.
 func isAddSyntaxError(i ssa.Instruction) bool {
 	c, ok := i.(ssa.CallInstruction)
 	if !ok {
 		return false
 	}
 	f := c.Common().StaticCallee()
-	return f != nil && f.Name() == "AddSyntaxError"
+	return f != nil && (f.Name() == "AddSyntaxError" || diagWrappers()[f])
+}
+
+var diagWrapperSet map[*ssa.Function]bool
+
+// diagWrappers: repo functions in which a diagnostic call sits in a block that dominates every return (fixpoint over wrappers of wrappers).
+func diagWrappers() map[*ssa.Function]bool {
+	if diagWrapperSet != nil || theWorld == nil {
+		return diagWrapperSet
+	}
+	set := map[*ssa.Function]bool{}
+	diagWrapperSet = set
+	for changed := true; changed; {
+		changed = false
+		for _, fn := range theWorld.srcFuncs {
+			if set[fn] || fn.Name() == "AddSyntaxError" || len(fn.Blocks) == 0 {
+				continue
+			}
+			var rets []*ssa.BasicBlock
+			for _, b := range fn.Blocks {
+				if _, ok := b.Instrs[len(b.Instrs)-1].(*ssa.Return); ok {
+					rets = append(rets, b)
+				}
+			}
+			if len(rets) == 0 {
+				continue
+			}
+			for _, b := range fn.Blocks {
+				has := false
+				for _, ins := range b.Instrs {
+					if c, ok := ins.(ssa.CallInstruction); ok {
+						if g := c.Common().StaticCallee(); g != nil && (g.Name() == "AddSyntaxError" || set[g]) {
+							has = true
+						}
+					}
+				}
+				if !has {
+					continue
+				}
+				all := true
+				for _, rb := range rets {
+					if !b.Dominates(rb) {
+						all = false
+					}
+				}
+				if all {
+					set[fn] = true
+					changed = true
+					break
+				}
+			}
+		}
+	}
+	return set
 }
 
 // parsePhaseFuncs: model package functions + methods of the model visitor.
@@ -1266,11 +1320,57 @@ func c12Options(w *World, r *Report) {
 	}
 	nc := w.Model.Func("NewConfiguration")
 	consumed := map[string]bool{}
+	// a key is consumed by a lookup with that constant, directly or inside a helper that looks up the key it is handed
+	var lookupParams func(fn *ssa.Function, depth int) map[int]bool
+	lookupParams = func(fn *ssa.Function, depth int) map[int]bool {
+		out := map[int]bool{}
+		if fn == nil || depth > 3 {
+			return out
+		}
+		idxOf := func(v ssa.Value) int {
+			for i, p := range fn.Params {
+				if stripIdentity(v) == ssa.Value(p) {
+					return i
+				}
+			}
+			return -1
+		}
+		forEachInstr(fn, func(b *ssa.BasicBlock, ins ssa.Instruction) {
+			switch x := ins.(type) {
+			case *ssa.Lookup:
+				if i := idxOf(x.Index); i >= 0 {
+					out[i] = true
+				}
+			case ssa.CallInstruction:
+				if g := x.Common().StaticCallee(); g != nil && g.Pkg == w.Model && g != fn {
+					for j := range lookupParams(g, depth+1) {
+						if j < len(x.Common().Args) {
+							if i := idxOf(x.Common().Args[j]); i >= 0 {
+								out[i] = true
+							}
+						}
+					}
+				}
+			}
+		})
+		return out
+	}
 	if nc != nil {
 		forEachInstr(nc, func(b *ssa.BasicBlock, ins ssa.Instruction) {
-			if lk, ok := ins.(*ssa.Lookup); ok {
-				if s, ok := constString(lk.Index); ok {
+			switch x := ins.(type) {
+			case *ssa.Lookup:
+				if s, ok := constString(x.Index); ok {
 					consumed[s] = true
+				}
+			case ssa.CallInstruction:
+				if g := x.Common().StaticCallee(); g != nil && g.Pkg == w.Model {
+					for j := range lookupParams(g, 0) {
+						if j < len(x.Common().Args) {
+							if s, ok := constString(x.Common().Args[j]); ok {
+								consumed[s] = true
+							}
+						}
+					}
 				}
 			}
 		})
